@@ -45,7 +45,7 @@ def run_pipeline(duck, strain, keys, close_mode="structural", explorer=None, cal
         return dict(tl=tl, iso={"c%d%d" % k.v: v for k, v in iso.items()}, adi={"c%d%d" % k.v: v for k, v in adi.items()})
 
     if explorer is None:
-        return X.run_single_path(fn, name="pipeline"), proxy
+        return X.run_single_path(fn, name="pipeline", generic=True), proxy
     return explorer.run(fn), proxy
 
 
@@ -68,7 +68,7 @@ def run_pipeline_reused(duck, strain_a, strain_b, keys, close_mode="structural")
             iso = tl.get_isothermal_results()
             adi = tl.get_adiabatic_results()
         return dict(tl=tl, iso={"c%d%d" % k.v: v for k, v in iso.items()}, adi={"c%d%d" % k.v: v for k, v in adi.items()})
-    return X.run_single_path(fn, name="pipeline-reused"), proxy
+    return X.run_single_path(fn, name="pipeline-reused", generic=True), proxy
 
 
 def real_pipeline_reused(duck, strain_a, strain_b, keys):
